@@ -687,6 +687,19 @@ def build_tdms(spec, d, rec, S):
 
 # ------------------------------------------------------------------ the case
 
+def _val_equal(a, b):
+    try:
+        if isinstance(a, np.ndarray) or isinstance(b, np.ndarray):
+            return bool(np.array_equal(np.asarray(a), np.asarray(b)))
+        return bool(a == b) or (a != a and b != b)
+    except Exception:
+        return False
+
+
+def _cfg_equal(a, b):
+    return set(a) == set(b) and all(_val_equal(a[k_], b[k_]) for k_ in a)
+
+
 def run_case(spec, rec):
     d = boot.casedir()
     S = None
@@ -894,6 +907,15 @@ def _run(spec, rec, d, S):
         raise
     rec.check(eqnan(np.array(ds.filter.all), sel), "source/filter-changed-by-export",
               "ds.filter.all differs after export")
+    # the export must not alter the metadata of the source dataset (a later export
+    # from the same instance would otherwise carry over e.g. a suffixed identifier)
+    after_cfg = {sec: dict(ds.config[sec]) for sec in src_cfg}
+    rec.check(all(_cfg_equal(src_cfg[sec], after_cfg[sec]) for sec in src_cfg),
+              "source/config-changed-by-export",
+              lambda: "source configuration differs after export: " + "; ".join(
+                  f"[{sec}] {k_}: {src_cfg[sec].get(k_)!r} -> {after_cfg[sec].get(k_)!r}"
+                  for sec in src_cfg for k_ in sorted(set(src_cfg[sec]) | set(after_cfg[sec]))
+                  if not _val_equal(src_cfg[sec].get(k_), after_cfg[sec].get(k_)))[:600])
     rec.check(out.exists(), "file/missing", f"{out} not written")
     if not out.exists():
         return
